@@ -615,3 +615,31 @@ def deleted_next_to_rotten(seed):
     r, o = rec.check(); d.append("check -> %s" % o["exit"])
     a.destroy()
     return rec, d
+
+
+def nohash_recovery_with_bad_parity(seed):
+    """C03 / C05: recovery without a hash: a sync stops after the parity update and before its final save (the new file's blocks
+    are recorded as changed, without a usable hash, the parity already holds them); the new file is lost and one parity block of
+    one of its stripes rots.  With three parities fix decodes with one combination and uses a spare parity to test the result:
+    the combination that uses the rotten block must be rejected, another one accepted - the file comes back bit for bit"""
+    a = arr.Array(arr.Conf(nd=2, np=3, copies=2), seed=seed)
+    a.write_file(0, "A", [1, 2], mtime=11)
+    a.write_file(1, "B", [3, 4, 5, 6], mtime=12)
+    rec = recorder.Recorder(a)
+    d = ["init A(2) / B(4)"]
+    r, o = rec.sync(); d.append("sync -> %s" % o["exit"])
+    a.write_file(0, "N", [7, 8], mtime=13); rec.env("write 0/N"); d.append("write 0/N (2 blocks)")
+    a.clock += 10
+    r, o = rec.sync("--test-kill-after-sync"); d.append("sync without its final save -> %s" % o["exit"])
+    a.remove(0, "N"); rec.env("lose 0/N", damage=True); d.append("lose 0/N")
+    pos = [b["pos"] for b in rec.lines[-1]["state"]["cf"]["0"]["N"]["bl"]]
+    a.corrupt_parity(0, pos[0], "flip"); rec.env("corrupt parity level 0 at stripe %d" % pos[0], damage=True); d.append("corrupt parity 0 @%d" % pos[0])
+    a.corrupt_parity(1, pos[1], "flip"); rec.env("corrupt parity level 1 at stripe %d" % pos[1], damage=True); d.append("corrupt parity 1 @%d" % pos[1])
+    r, o = rec.check(); d.append("check -> %s" % o["exit"])
+    r, o = rec.fix(); d.append("fix -> %s" % o["exit"])
+    r, o = rec.check(); d.append("check -> %s" % o["exit"])
+    a.clock += 10
+    r, o = rec.sync(); d.append("sync -> %s" % o["exit"])
+    r, o = rec.check(); d.append("check -> %s" % o["exit"])
+    a.destroy()
+    return rec, d
